@@ -10,7 +10,7 @@ use super::{replay_spaces_for, run_spaces_for, Case, Prop, Space};
 use crate::engine::{coords, guard, Acc, Ctx, Report, Tier};
 use crate::refs::interp::Stack;
 use crate::refs::script::{self as rs, Tok};
-use bsv::{Interpreter, OpCodes, Script, ScriptBit, Transaction, TxIn, TxOut};
+use bsv::{Interpreter, OpCodes, PrivateKey, Script, ScriptBit, Transaction, TxIn, TxOut};
 use serde_json::{json, Value};
 use std::sync::Arc;
 
@@ -178,7 +178,7 @@ pub fn spaces(tier: Tier) -> Vec<Space> {
     {
         let (vals, ops) = (vals.clone(), ops.clone());
         let mut tops: Vec<Vec<u8>> = vals.iter().cloned().collect();
-        for x in ["03", "08", "09", "10", "21", "83", "ffffff7f", "ffffffff7f", "ffffffffffffffff7f"] {
+        for x in ["03", "08", "09", "10", "21", "83", "ffffff7f", "ffffffff7f", "ffffffffffffffff7f", "0900", "8000", "010080", "01008000", "01000080"] {
             tops.push(hex::decode(x).unwrap());
         }
         let nt = tops.len() as u64;
@@ -259,6 +259,23 @@ pub fn spaces(tier: Tier) -> Vec<Space> {
             toks.push(Tok::Op(o1));
             toks.push(Tok::Op(o2));
             let desc = || json!({"op1": opname(o1), "op2": opname(o2), "initial_stack": show_stack(st)});
+            check_script_bytes(&rs::serialize(&toks), acc, case, &desc);
+        }));
+    }
+    // (b') thorough: every ordered triple of accepted opcode bytes from every stack of depth <= 1 over V3
+    if thorough {
+        let (vals, ops) = (vals.clone(), ops.clone());
+        let inits: Vec<Stack> = vec![vec![], vec![vals[0].clone()], vec![vals[1].clone()], vec![vals[5].clone()]];
+        let ni = inits.len() as u64;
+        v.push(Space::new("chain3", ni * no * no * no, move |case, acc| {
+            let c = coords(case.idx, &[ni, no, no, no]);
+            let st = &inits[c[0] as usize];
+            let o = [ops[c[1] as usize], ops[c[2] as usize], ops[c[3] as usize]];
+            let mut toks = pushes_for(st, &vec![]);
+            for x in o {
+                toks.push(Tok::Op(x));
+            }
+            let desc = || json!({"ops": [opname(o[0]), opname(o[1]), opname(o[2])], "initial_stack": show_stack(st)});
             check_script_bytes(&rs::serialize(&toks), acc, case, &desc);
         }));
     }
@@ -362,6 +379,57 @@ pub fn spaces(tier: Tier) -> Vec<Space> {
             };
             for f in check_total(&mk, acc) {
                 let input = json!({"sigop": opname(op), "operand_a": hex::encode(&a), "operand_b": hex::encode(&b), "extended_fields": ext, "input_index": txin_index});
+                acc.violate(f.key, case.idx, case.json(input), f.detail);
+            }
+        }));
+    }
+    // (e') signature opcodes reached after OP_CODESEPARATORs in every position: in the unlocking script, at top level of the
+    // locking script, and inside taken / not-taken conditional branches of the locking script
+    {
+        let k = PrivateKey::from_hex("c0ffee254729296a45a3885639ac7e10f9d54979a0f5b2d1e8b1c4a7d3f6e5b9").unwrap();
+        let pk = k.to_public_key().unwrap().to_bytes().unwrap();
+        let sig = {
+            let mut s = k.sign_message(b"x").unwrap().to_der_bytes();
+            s.push(0x41);
+            s
+        };
+        let push = |d: &[u8]| rs::serialize(&[rs::minimal_push(d)]);
+        let unlockings: Vec<Vec<u8>> = vec![
+            [push(&sig), push(&pk)].concat(),
+            [vec![0xab], push(&sig), push(&pk)].concat(),
+            [push(&sig), vec![0xab], push(&pk)].concat(),
+            [push(&sig), push(&pk), vec![0xab]].concat(),
+            [vec![0xab, 0xab], push(&sig), vec![0xab], push(&pk)].concat(),
+            [push(&sig)].concat(),
+        ];
+        let lockings: Vec<Vec<u8>> = vec![
+            vec![0xac],
+            vec![0xab, 0xac],
+            vec![0x51, 0x63, 0xab, 0x68, 0xac],
+            vec![0x51, 0x63, 0x61, 0x61, 0x61, 0xab, 0x68, 0xac],
+            vec![0x00, 0x63, 0xab, 0x67, 0x61, 0x61, 0xab, 0x68, 0xac],
+            vec![0x51, 0x63, 0x51, 0x63, 0x61, 0xab, 0x61, 0x68, 0xab, 0x68, 0xad, 0x51],
+            vec![0x51, 0x63, 0x61, 0x61, 0xab, 0x68, 0x76, 0xa9, 0x69, 0xac],
+            vec![0x61, 0x61, 0x61, 0x61, 0xab, 0x61, 0xab, 0xac],
+        ];
+        let (nu, nl) = (unlockings.len() as u64, lockings.len() as u64);
+        v.push(Space::new("from-transaction-codeseparators", nu * nl * 2, move |case, acc| {
+            let c = coords(case.idx, &[nu, nl, 2]);
+            let (u, l) = (unlockings[c[0] as usize].clone(), lockings[c[1] as usize].clone());
+            let n_in = 1 + c[2] as usize;
+            let mk = || -> Result<Interpreter, String> {
+                let mut tx = Transaction::new(1, 0);
+                for i in 0..n_in {
+                    let mut txin = TxIn::new(&[3u8 + i as u8; 32], 1, &Script::from_bytes(&u).map_err(|e| e.to_string())?, Some(5));
+                    txin.set_satoshis(1000);
+                    txin.set_locking_script(&Script::from_bytes(&l).map_err(|e| e.to_string())?);
+                    tx.add_input(&txin);
+                }
+                tx.add_output(&TxOut::new(1, &Script::from_bytes(&[0x51]).unwrap()));
+                Interpreter::from_transaction(&tx, n_in - 1).map_err(|e| e.to_string())
+            };
+            for f in check_total(&mk, acc) {
+                let input = json!({"unlocking_hex": hex::encode(&u), "locking_hex": hex::encode(&l), "n_inputs": n_in});
                 acc.violate(f.key, case.idx, case.json(input), f.detail);
             }
         }));
